@@ -69,6 +69,12 @@ void harness_case(Dec &d, Case &c) {
         else { if ((dev == E_NO_MAC || dev == E_NO_HEADER) && d.flag()) { std::vector<size_t> idx; for (size_t i = 0; i < cc.links.size(); i++) if (cc.links[i].isLeft) idx.push_back(i); if (!idx.empty()) flipByte(cc.links[idx[d.pick((uint32_t)idx.size())]].sib, d); } // an unauthenticated reply may carry anything
             Tlv pl = extRespPayload(ver, rid, hasStatus, dev == E_STATUS ? status : 0, dev == E_STATUS ? "failure" : "", dev == E_NO_CHAIN ? nullptr : &cc, d.flag(), head); bool wh = dev != E_NO_HEADER, wm = dev != E_NO_MAC; pdu = ver == 1 ? sealV1(0x300, h, pl, keyB, macAlg, wh, wm) : sealV2(0x321, h, {pl}, keyB, macAlg, wh, wm); }
         if (dev == E_BAD_MAC) pdu[pdu.size() - 1 - d.pick(8)] ^= 1;
+        if (dev == E_NO_MAC && d.pick(3) != 0) { // a forger without the key: the client's own header, request element and MAC echoed back around a forged response
+            Tlv rq; std::vector<Tlv> rk; if (decodeOne(req, rq) && decodeList(rq.payload.data(), rq.payload.size(), rk) && rk.size() >= 3) {
+                std::vector<size_t> li; for (size_t i = 0; i < cc.links.size(); i++) if (cc.links[i].isLeft) li.push_back(i); if (!li.empty()) flipByte(cc.links[li[d.pick((uint32_t)li.size())]].sib, d);
+                Tlv forged = extRespPayload(ver, rid, true, 0, "", &cc, false, 0); Tlv p(ver == 1 ? 0x300 : 0x321); p.nested = true; bool respFirst = d.flag();
+                p.kids.push_back(rk[0]); if (respFirst) p.kids.push_back(forged); for (size_t i = 1; i + 1 < rk.size(); i++) p.kids.push_back(rk[i]); if (!respFirst) p.kids.push_back(forged); p.kids.push_back(rk.back());
+                pdu = p.enc(); replied = cc; c.cls("reply:request-echoed-around-forged-response"); } }
         return pdu; };
     if (dev == E_TRUNCATED) srv.truncateReplyAt = 3 + (long)d.pick(80); srv.attach();
     // ---- client ---------------------------------------------------------------------------------------------------------
